@@ -165,41 +165,81 @@ fn make_repr(kind: Kind, s: &str) -> Repr {
     }
 }
 
-/// A hasher that records exactly what is fed to it.
+/// A hasher that records what is fed to it, robustly: every `Hasher` method ends in
+/// `write` (the integer / length-prefix / str helpers are the trait's default methods,
+/// which call `write` with the value's bytes), and `write` is loop-free, so ANY sequence of
+/// calls a `Hash` impl may make is recorded without depending on the harness unwind bound.
+/// Per call: the length and the first `REC_BYTES` bytes (exact for the writes a
+/// content-based impl makes on contents within the harness bounds); up to `REC_EVENTS`
+/// calls, more set `overflow`.
+const REC_EVENTS: usize = 4;
+const REC_BYTES: usize = 4;
+
+#[derive(Clone, Copy)]
+struct Ev {
+    len: usize,
+    bytes: [u8; REC_BYTES],
+}
+impl Ev {
+    fn is(&self, o: &Ev) -> bool {
+        (self.len == o.len)
+            & (self.bytes[0] == o.bytes[0])
+            & (self.bytes[1] == o.bytes[1])
+            & (self.bytes[2] == o.bytes[2])
+            & (self.bytes[3] == o.bytes[3])
+    }
+}
+
 struct Rec {
-    buf: [u8; 24],
+    ev: [Ev; REC_EVENTS],
     n: usize,
-    calls: usize,
-    lens: [usize; 6],
+    overflow: bool,
 }
 impl Rec {
     fn new() -> Self {
         Self {
-            buf: [0; 24],
+            ev: [Ev {
+                len: 0,
+                bytes: [0; REC_BYTES],
+            }; REC_EVENTS],
             n: 0,
-            calls: 0,
-            lens: [0; 6],
+            overflow: false,
         }
     }
+    /// Same sequence of calls with the same data.
     fn same(&self, o: &Self) -> bool {
-        if (self.n != o.n) | (self.calls != o.calls) {
+        if self.overflow | o.overflow | (self.n != o.n) {
             return false;
         }
         let mut i = 0;
-        while i < self.n {
-            if self.buf[i] != o.buf[i] {
-                return false;
-            }
-            i += 1;
-        }
-        let mut i = 0;
-        while i < self.calls {
-            if self.lens[i] != o.lens[i] {
+        while i < REC_EVENTS {
+            if (i < self.n) & !self.ev[i].is(&o.ev[i]) {
                 return false;
             }
             i += 1;
         }
         true
+    }
+    /// Exactly the stream of `str`: one write of the content, then the 0xff terminator.
+    fn is_str_stream(&self, content: &[u8]) -> bool {
+        if self.overflow | (self.n != 2) | (content.len() > REC_BYTES) {
+            return false;
+        }
+        let mut want = [0u8; REC_BYTES];
+        let mut i = 0;
+        while i < REC_BYTES {
+            if i < content.len() {
+                want[i] = content[i];
+            }
+            i += 1;
+        }
+        (self.ev[0].len == content.len())
+            & self.ev[0].is(&Ev {
+                len: content.len(),
+                bytes: want,
+            })
+            & (self.ev[1].len == 1)
+            & (self.ev[1].bytes[0] == 0xff)
     }
 }
 impl Hasher for Rec {
@@ -207,14 +247,28 @@ impl Hasher for Rec {
         0
     }
     fn write(&mut self, bytes: &[u8]) {
-        let mut i = 0;
-        while i < bytes.len() {
-            self.buf[self.n] = bytes[i];
-            self.n += 1;
-            i += 1;
+        let mut b = [0u8; REC_BYTES];
+        if bytes.len() > 0 {
+            b[0] = bytes[0];
         }
-        self.lens[self.calls] = bytes.len();
-        self.calls += 1;
+        if bytes.len() > 1 {
+            b[1] = bytes[1];
+        }
+        if bytes.len() > 2 {
+            b[2] = bytes[2];
+        }
+        if bytes.len() > 3 {
+            b[3] = bytes[3];
+        }
+        if self.n < REC_EVENTS {
+            self.ev[self.n] = Ev {
+                len: bytes.len(),
+                bytes: b,
+            };
+            self.n += 1;
+        } else {
+            self.overflow = true;
+        }
     }
 }
 
@@ -747,9 +801,8 @@ fn c32_hash_is_content_hash() {
     let want_eq = same_bytes(&p.a[..p.la], &p.b[..p.lb]);
     let ha = rec_of(&p.ta);
     let hb = rec_of(&p.tb);
-    assert!(ha.n == p.la + 1);
-    assert!(same_bytes(&ha.buf[..p.la], &p.a[..p.la]));
-    assert!(ha.buf[p.la] == 0xff);
+    assert!(ha.is_str_stream(&p.a[..p.la]));
+    assert!(hb.is_str_stream(&p.b[..p.lb]));
     assert!(ha.same(&hb) == want_eq);
     kani::cover!(
         want_eq & (p.ka == Kind::Static) & (p.kb == Kind::Heap) & (p.la == 3),
@@ -792,8 +845,7 @@ fn c32_ident_three_reprs_agree() {
     let h2 = rec_of(&i_inline);
     let h3 = rec_of(&i_heap);
     assert!(h1.same(&h2) & h2.same(&h3));
-    assert!(h1.n == la + 1);
-    assert!(same_bytes(&h1.buf[..la], &a[..la]));
+    assert!(h1.is_str_stream(&a[..la]));
     kani::cover!(la == 2, "2-byte identifier");
     kani::cover!(la == 1, "1-byte identifier");
 }
